@@ -439,7 +439,18 @@ pub fn run(opts: &RndOpts, tw: &mut TraceWriter) {
                 let own = node.id();
                 // new generation of the own address (never an address of a known member)
                 let g = env.rng.random_range(0..env.ngen + 2);
-                Call::ChangeId(Id::with(own.addr, g, own.pol))
+                // one time in three: move to another address, one that no active member has
+                // (adopting the address of a live member is a user error the properties do not cover)
+                let free: Vec<u8> = (1..=env.naddr)
+                    .filter(|a| *a != own.addr)
+                    .filter(|a| !node.foca.iter_members().any(|m| m.id().addr == *a))
+                    .collect();
+                if !free.is_empty() && env.rng.random_range(0..3) == 0 {
+                    let a = free[env.rng.random_range(0..free.len())];
+                    Call::ChangeId(Id::with(a, g, own.pol))
+                } else {
+                    Call::ChangeId(Id::with(own.addr, g, own.pol))
+                }
             } else if choice < 96 {
                 Call::Reuse
             } else if choice < 98 {
